@@ -98,7 +98,7 @@ theorem eval_readChunks_gatq {ε} (now : Nat) (t : Tier) (key : Bytes) (e : Nat)
       DataSub (w'.get t) (w.get t) := by
   obtain ⟨w', h1, h2, _⟩ := eval_askChunks_gatq (ε := ε) now t key e tk md.numChunks 0 w
   refine ⟨w', ?_, h2⟩
-  simp only [readChunks, Prog.eval_bind, h1, Prog.eval_req, Mc.exec, put_get_self, List.append_nil, List.nil_append]
+  simp only [readChunks, noopEnds_ok, Prog.eval_bind, h1, Prog.eval_req, Mc.exec, put_get_self, List.append_nil, List.nil_append]
   rw [readLoop_hits]
   have hc := foldl_hit_chunk md (presentItems now (w.get t) key md.numChunks 0) { buf := Bytes.zeros md.length }
   simp only [hc.2, hc.1, Nat.zero_add, Bool.not_true, Bool.false_eq_true, if_false, readResult]
